@@ -239,15 +239,26 @@ def b_zip(self, a, kw):
 
 @H('map')
 def b_map(self, a, kw):
+  """map(f, iterable): lazily, element k is f(iterable[k]); f is applied once under a binder
+  (its result is a skolem function of the index)"""
   from .calls import call_value
   f = a[0]
   it = as_iter(self, a[1])
   st = getattr(it, 'static', None)
   if st is not None:
     return as_iter(self, PyTuple(call_value(self, f, [x], {}) for x in st))
-  probe = call_value(self, f, [it.at(z3.Int(fresh_name('probe')))], {})
-  es = self.sort_of(probe)
-  return IterView(it.length, lambda k: call_value(self, f, [it.at(k)], {}), es)
+  if f is GLOBAL_BINDINGS.get('str') and isinstance(it.elem_sort, Opaque) and it.elem_sort.is_str:
+    return it  # str() is the identity on strings
+  k = z3.Int(fresh_name('mi'))
+  saved = self.spec_mode
+  self.spec_mode = True
+  self.push_binders([k])
+  try:
+    v = self.lift(call_value(self, f, [it.at(k)], {}))
+  finally:
+    self.pop_binders(1)
+    self.spec_mode = saved
+  return IterView(it.length, lambda kk: SV(v.sort, z3.substitute(v.t, (k, kk if not isinstance(kk, int) else z3.IntVal(kk)))), v.sort)
 
 
 @H('type')
@@ -554,7 +565,9 @@ def set_method(self, box, v, name, args):
   s = v.sort
   if name in ('union', 'intersection', 'difference', 'issubset', 'issuperset', 'isdisjoint'):
     o = self.deref(args[0])
-    if isinstance(o, IterView):
+    if isinstance(o, IterView) and getattr(o, 'source_map', None) is not None:
+      o = SV(SetOf(o.source_map.sort.key), o.source_map.sort.dom(o.source_map.t))
+    elif isinstance(o, IterView):
       o = self.deref(GLOBAL_BINDINGS['set'].fn(self, [GLOBAL_BINDINGS['tuple'].fn(self, [o], {})], {}))
     if isinstance(o, SV) and isinstance(o.sort, SeqOf):
       o = self.set_from_seq(o)
